@@ -25,6 +25,8 @@ def op_line(op):
         return req('w.warm', enc_text(op[1]))
     if k == 'todict':
         return req('w.todict', enc_text(op[1]))
+    if k == 'todict_obj':
+        return req('w.todict_obj', enc_text(op[1]))
     if k == 'desc':
         _, i, text, layout, cfg, pq, src, wait = op
         return req('w.desc', str(i), enc_text(text), enc_text(layout), impl.enc_cfg(cfg), impl.enc_kv(pq), enc_text(src), impl.enc_kv(wait))
@@ -94,6 +96,12 @@ class PyWorld:
             for a in list(d):
                 d[a] = 'MUTATED'
             d['extra'] = 1
+            return out
+        if k == 'todict_obj':
+            d = pytrs.trs_to_dict(TRS(op[1]))
+            out = render({a: d[a] for a in impl.TRS_KEYS})
+            for a in list(d):
+                d[a] = 'MUTATED'
             return out
         if k == 'desc':
             _, i, text, layout, cfg, pq, src, wait = op
